@@ -54,6 +54,7 @@ pub const O_DIRECTORY: i32 = 0o200000;
 pub const O_NOFOLLOW: i32 = 0o400000;
 pub const O_CLOEXEC: i32 = 0o2000000;
 pub const O_PATH: i32 = 0o10000000;
+pub const O_TMPFILE: i32 = 0o20200000;
 
 pub const ECANCELED: i64 = 125;
 pub const ETIME: i64 = 62;
